@@ -115,8 +115,18 @@ func shortStack() string {
 			l = strings.TrimSpace(l)
 			// keep the message a deterministic function of the run: no
 			// pointer-valued arguments, no pc offsets
-			if i := strings.Index(l, "(0x"); i >= 0 {
-				l = l[:i]
+			if strings.HasPrefix(l, "/") {
+				// file:line +0xpc
+			} else {
+				// function(args): cut at the parenthesis that opens the arguments (not
+				// the one of a pointer receiver "(*T)")
+				seg := strings.LastIndex(l, "/")
+				for i := seg + 1; i < len(l); i++ {
+					if l[i] == '(' && (i+1 >= len(l) || l[i+1] != '*') {
+						l = l[:i]
+						break
+					}
+				}
 			}
 			if i := strings.Index(l, " +0x"); i >= 0 {
 				l = l[:i]
